@@ -18,6 +18,8 @@ CORPORA = {
                           family="stream", trace="StreamTrace.tla", tracecfg="StreamTrace.cfg"),
     "stream_hostile": dict(gen="MCStream.tla", cfg={"quick": "stream_hostile_quick.cfg", "thorough": "stream_hostile_thorough.cfg"},
                            family="stream", trace="StreamTrace.tla", tracecfg="StreamTrace.cfg"),
+    "stream_chunks": dict(gen="MCStream.tla", cfg={"quick": "stream_chunks_quick.cfg", "thorough": "stream_chunks_thorough.cfg"},
+                          family="stream", trace="StreamTrace.tla", tracecfg="StreamTrace.cfg"),
     "stream_headers": dict(gen="MCStream.tla", cfg={"quick": "stream_headers_quick.cfg", "thorough": "stream_headers_thorough.cfg"},
                            family="stream", trace="StreamTrace.tla", tracecfg="StreamTrace.cfg"),
 }
@@ -31,6 +33,8 @@ PROPS = {
     "C03": dict(corpora=["stream_matrix", "stream_errors", "stream_faults", "stream_hostile"], prefix="C03."),
     "C04": dict(corpora=["stream_errors"], prefix="C04."),
     "C05": dict(corpora=["stream_headers"], prefix="C05."),
+    "C08": dict(corpora=["stream_chunks"], prefix="C08.",
+                design=[("MCFraming.tla", "framing_%s_fixed.cfg" % p) for p in ("R1", "R2", "R3", "R4", "R5", "R5e")]),
     "C09": dict(corpora=["stream_faults"], prefix="C09."),
     "C11": dict(corpora=["stream_hostile", "stream_faults", "stream_errors", "stream_reject"], prefix="C11."),
     "C13": dict(corpora=["stream_matrix", "stream_reject"], prefix="C13."),
@@ -116,6 +120,16 @@ def check(pid, tier, seed, work, t0):
     kf_seen = collections.OrderedDict()
     per_corpus = {}
     skipped = 0
+    design = {}
+    for module, cfg in prop.get("design", []):
+        # E1 only: exhaustive check of a byte-grain / interleaving model that has no scenarios to emit
+        log("[design] tlc %s %s" % (module, cfg))
+        g = vlib.run_tlc(work, module, cfg, timeout=3600)
+        if not g["ok"]:
+            raise Inconclusive("design model %s/%s fails: %s\n%s" % (module, cfg, g["errors"][:3], g["raw"][-2000:]))
+        states += g["distinct"]
+        transitions += g["generated"]
+        design[cfg] = dict(states=g["distinct"], transitions=g["generated"])
     for name in prop["corpora"]:
         r = run_corpus(name, tier, seed, work, binary)
         states += r["gen"]["distinct"]
@@ -185,7 +199,7 @@ def check(pid, tier, seed, work, t0):
                rule="scenarios are the terminal states of the TLC exploration of the family's specification; a case is "
                     "non-trivial when the transcoder had to convert (not a byte-identical pass-through); distinct = distinct "
                     "(client form, codec, compression, method, backend form/codec/compression, message counts, end, fault, observed code) classes reached on the real code",
-               exhaustive=True, corpora=per_corpus, skipped_scenarios=skipped,
+               exhaustive=True, corpora=per_corpus, design_models=design, skipped_scenarios=skipped,
                known_findings_reproduced=sorted(kf_seen.keys()))
     vlib.write_evidence(pid, tier, seed, cov, ASSUMPTIONS, time.time() - t0, len(violations))
     print("property=%s tier=%s seed=%d states=%d traces=%d distinct_nontrivial=%d violations=%d wall=%.0fs" % (
